@@ -167,3 +167,87 @@ def ensure_token_changed(path, before):
         return False
     os.utime(path, ns=(st.st_atime_ns, st.st_mtime_ns + 1000))
     return True
+
+
+def mutate_tree(rng, files, empties=(), pool_=None, kind_swaps=True, nops=None):
+    """Derive another tree from `files`: adds, modifications, deletions, nested-directory removal and
+    (when allowed) file<->directory replacements at any depth.  -> (files, empties, ops)"""
+    files = dict(files)
+    empties = set(empties)
+    ops = []
+    pool_ = pool_ or [small_content(rng) for _ in range(3)]
+
+    def dirs():
+        s = set()
+        for k in files:
+            for i in range(1, len(k)):
+                s.add(k[:i])
+        return sorted(s)
+
+    def occupied(k):
+        # is k (or an ancestor) a file, or k a directory?
+        if k in files or k in empties:
+            return True
+        for i in range(1, len(k)):
+            if k[:i] in files:
+                return True
+        return any(f[: len(k)] == k for f in files) or any(e[: len(k)] == k for e in empties)
+
+    for _ in range(nops if nops is not None else rng.randrange(1, 6)):
+        ch = ["add", "modify", "delete", "deldir", "add-nested"]
+        if kind_swaps:
+            ch += ["file->dir", "dir->file", "file->dir", "dir->file"]
+        op = rng.choice(ch)
+        ds = dirs()
+        if op == "add":
+            base = rng.choice([()] + ds)
+            k = (*base, name(rng, odd=0.2))
+            if not occupied(k) and len(k) <= 5:
+                files[k] = rng.choice(pool_) if rng.random() < 0.5 else small_content(rng)
+                empties.discard(base)
+                ops.append(("add", k))
+        elif op == "add-nested":
+            base = rng.choice([()] + ds)
+            k = (*base, name(rng, odd=0.2), name(rng, odd=0.2), name(rng, odd=0.2))
+            if not occupied(k[: len(base) + 1]) and len(k) <= 5:
+                files[k] = small_content(rng)
+                ops.append(("add-nested", k))
+        elif op == "modify" and files:
+            k = rng.choice(sorted(files))
+            files[k] = small_content(rng) + b"!"
+            ops.append(("modify", k))
+        elif op == "delete" and len(files) > 1:
+            k = rng.choice(sorted(files))
+            del files[k]
+            ops.append(("delete", k))
+        elif op == "deldir" and ds:
+            dk = rng.choice(ds)
+            victims = [f for f in files if f[: len(dk)] == dk]
+            if len(victims) < len(files):
+                for f in victims:
+                    del files[f]
+                empties = {e for e in empties if e[: len(dk)] != dk}
+                ops.append(("deldir", dk))
+        elif op == "file->dir" and files:
+            k = rng.choice(sorted(files))
+            if len(k) <= 3:
+                del files[k]
+                n1 = name(rng, odd=0.2)
+                files[(*k, n1)] = small_content(rng)
+                if rng.random() < 0.5:
+                    files[(*k, name(rng, used={n1}, odd=0.2), name(rng, odd=0.2))] = rng.choice(pool_)
+                ops.append(("file->dir", k))
+        elif op == "dir->file" and ds:
+            dk = rng.choice(ds)
+            victims = [f for f in files if f[: len(dk)] == dk]
+            for f in victims:
+                del files[f]
+            empties = {e for e in empties if e[: len(dk)] != dk}
+            files[dk] = small_content(rng)
+            ops.append(("dir->file", dk))
+    # normalise: no empty dir that is a prefix of (or equal to) a file path, or below a file
+    empties = {
+        e for e in empties
+        if not any(f[: len(e)] == e for f in files) and not any(e[: len(f)] == f for f in files)
+    }
+    return files, empties, ops
